@@ -30,6 +30,8 @@ func checkC07(p *Prog, r *Report) {
 	r.Rule("R8", "every read-modify-write of the local entity list and of the local feature list reads and stores inside one critical section")
 	rebuildAtomic(p, ls, r, "R8", F("DeviceLocal.entities"), 2)
 	rebuildAtomic(p, ls, r, "R8", F("EntityLocal.features"), 1)
+	r.Rule("R9", "the notifications of AddEntity/RemoveEntity reach every subscriber: NotifySubscribers sends one Notify per entry of the per-feature query, correctly wired, and leaves its loop only when the entries are exhausted (shared with C08-R5)")
+	fanoutRule(p, r, "R9")
 	r.Rule("R5", "the detailed-discovery reply is assembled from the live getters: Information() of every element of Device().Entities() and of every element of its Features(), unconditionally, plus Device().Information()")
 	c07Discovery(p, r)
 	r.Rule("R6", "Operations.Information announces read iff read, write iff write, and the partial flags iff readPartial resp. writePartial")
